@@ -1,2 +1,3 @@
 import Spec.Match
 import Spec.MatchDomain
+import Spec.MatchClasses
